@@ -381,6 +381,10 @@ def get_doc_mergers(
 
         doc_mergers.append(Merger(log, yaml_data, config))
 
+    if docs_loaded and len(doc_mergers) < 1:
+        # The source is empty; it is a single, empty document
+        doc_mergers.append(Merger(log, None, config))
+
     return (doc_mergers, docs_loaded)
 
 def merge_condense_all(
